@@ -158,3 +158,212 @@ def rawchars_agree(kind, mode, p, flags, is_bytes, name):
     if name is None:
         return True
     return fn(name, cv(p), flags=flags) == fn(name, cv(ref), flags=flags)
+
+
+# ---------------------------------------------------------------------------------------------------------
+# C11 helpers
+
+def default_limit(name):
+    import inspect
+    from engine.replay import resolve
+    return inspect.signature(resolve(name)).parameters['limit'].default
+
+
+def _brace(prefix, n, suffix=''):
+    if n <= 0:
+        return None
+    if n == 1:
+        return f'{prefix}1{suffix}'
+    return f'{prefix}{{1..{n}}}{suffix}'
+
+
+def _call_entry(entry, incl, excl, L, flags_extra=0):
+    """Call one public entry point with inclusion patterns `incl` (list), exclusion patterns `excl` (list) and limit L."""
+    from wcmatch import fnmatch as F, glob as G, pathlib as P, wcmatch as W
+    ex = excl if excl else None
+    if entry == 'fnmatch':
+        return F.fnmatch('x', incl, flags=F.BRACE | F.SPLIT | flags_extra, limit=L, exclude=ex)
+    if entry == 'filter':
+        return F.filter(['x'], incl, flags=F.BRACE | F.SPLIT, limit=L, exclude=ex)
+    if entry == 'fn_translate':
+        return F.translate(incl, flags=F.BRACE | F.SPLIT, limit=L, exclude=ex)
+    if entry == 'fn_compile':
+        return F.compile(incl, flags=F.BRACE | F.SPLIT, limit=L, exclude=ex)
+    if entry == 'globmatch':
+        return G.globmatch('x', incl, flags=G.BRACE | G.SPLIT, limit=L, exclude=ex)
+    if entry == 'globfilter':
+        return G.globfilter(['x'], incl, flags=G.BRACE | G.SPLIT, limit=L, exclude=ex)
+    if entry == 'gl_translate':
+        return G.translate(incl, flags=G.BRACE | G.SPLIT, limit=L, exclude=ex)
+    if entry == 'gl_compile':
+        return G.compile(incl, flags=G.BRACE | G.SPLIT, limit=L, exclude=ex)
+    if entry == 'glob':
+        return G.glob(incl, flags=G.BRACE | G.SPLIT, limit=L, exclude=ex, root_dir='/nonexistent-wcverif')
+    if entry == 'iglob':
+        return list(G.iglob(incl, flags=G.BRACE | G.SPLIT, limit=L, exclude=ex, root_dir='/nonexistent-wcverif'))
+    if entry == 'pathlib_match':
+        return P.PurePath('x').match(incl, flags=P.BRACE | P.SPLIT, limit=L, exclude=ex)
+    if entry == 'pathlib_glob':
+        return list(P.Path(__import__('tempfile').gettempdir()).glob(incl, flags=P.BRACE | P.SPLIT, limit=L, exclude=ex))
+    if entry == 'pathlib_rglob':
+        return list(P.Path(__import__('tempfile').gettempdir()).rglob(incl, flags=P.BRACE | P.SPLIT, limit=L, exclude=ex))
+    if entry == 'wcmatch':
+        # brace expansion applies to the whole |-joined string (and would multiply the pieces): spell ranges out instead
+        def spell(p):
+            import bracex
+            return list(bracex.expand(p, limit=0)) if '{' in p else [p]
+        if any('100000000' in p for p in incl):
+            pat = '|'.join(incl)
+        else:
+            pat = '|'.join([x for p in incl for x in spell(p)] + ['!' + x for e in (excl or []) for x in spell(e)])
+        return W.WcMatch('/nonexistent-wcverif', pat, flags=W.BRACE, limit=L)
+    raise ValueError(entry)
+
+
+def limit_boundary(entry, L, shape, _guarded=False):
+    """Failures of the limit law around the boundary for one entry point (real bracex)."""
+    import time
+    from wcmatch import _wcparse
+    bad = []
+
+    def attempt(incl, excl, expect_raise, label):
+        t = time.time()
+        try:
+            _call_entry(entry, incl, excl, L)
+            raised = False
+        except _wcparse.PatternLimitException:
+            raised = True
+        except Exception as e:  # noqa: BLE001
+            bad.append(f'{label}: unexpected {type(e).__name__}: {e}')
+            return
+        dt = time.time() - t
+        if raised != expect_raise:
+            bad.append(f'{label}: raised={raised} expected={expect_raise}')
+        if dt > 20:
+            bad.append(f'{label}: took {dt:.1f}s')
+
+    if shape == 'incl_only':
+        for k in (L - 1, L, L + 1):
+            if k >= 1:
+                attempt([_brace('', k)], [], k > L, f'{k} inclusion expansions')
+    elif shape == 'with_exclude':
+        for a, b in ((L - 1, 1), (L, 1), (max(L - 2, 1), 2), (1, L), (1, L - 1)):
+            if a >= 1 and b >= 1:
+                attempt([_brace('', a)], [_brace('', b, 'x')], a + b > L, f'{a} inclusions + {b} exclusions')
+    elif shape == 'split':
+        for k in (L, L + 1):
+            if k <= 40:
+                attempt(['|'.join(f'p{i}' for i in range(k))], [], k > L, f'{k} split pieces')
+            if 2 <= k <= 40:
+                attempt(['p0', '|'.join(f'q{i}' for i in range(k - 1))], [], k > L, f'1 + {k - 1} split pieces in two patterns')
+    elif shape == 'huge':
+        if not _guarded:
+            return _huge_in_child(entry, L)
+        attempt(['{1..100000000}'], [], True, 'huge range')
+        attempt(['a', '{1..100000000}'], [], True, 'huge range as second pattern')
+        if L >= 2:
+            attempt([_brace('', L - 1), '{1..100000000}'], [], True, 'huge range after L-1 expansions')
+            attempt([_brace('', L), '{1..100000000}'], [], True, 'huge range after exactly L expansions')
+    return bad
+
+
+def _huge_in_child(entry, L):
+    """`{1..100000000}` must fail fast: run in a child with a wall-clock and an address-space limit, so that a tree which
+    materialises the range is reported instead of hanging the check."""
+    import json
+    import os
+    import resource
+    import subprocess
+    import sys
+
+    def lim():
+        resource.setrlimit(resource.RLIMIT_AS, (3 << 30, 3 << 30))
+    code = ('import json,sys; sys.path[:0]=["/repo","/verif"]; from engine import replayfn; '
+            f'print("RESULT"+json.dumps(replayfn.limit_boundary({entry!r}, {L}, "huge", True)))')
+    try:
+        p = subprocess.run([sys.executable, '-c', code], capture_output=True, text=True, timeout=40, preexec_fn=lim,
+                           env=dict(os.environ, PYTHONDONTWRITEBYTECODE='1'))
+    except subprocess.TimeoutExpired:
+        return ['huge range: no PatternLimitException within 40 s (expansion is being materialised)']
+    for line in p.stdout.splitlines():
+        if line.startswith('RESULT'):
+            return json.loads(line[6:])
+    return ['huge range: child failed (memory limit / crash): ' + (p.stderr or '')[-200:]]
+
+
+def _names(prefix, n):
+    if n <= 0:
+        return None
+    items = [f'{prefix}{k}' for k in range(n)]
+    return items[0] if n == 1 else '{' + ','.join(items) + '}'
+
+
+def limit_law_public(fname, args):
+    """Replay of a CrossHair counterexample of harness/xh_c11.py through the public API with the real bracex."""
+    import bracex
+    from wcmatch import fnmatch as F, glob as G, _wcparse
+    parts = fname.split('_')
+    entry = parts[1]
+    if entry == 'history':
+        L0, L, n1, n2, e1 = args
+        n3 = e2 = 0
+        dup, inline = (parts[2][0] == 'd'), (parts[2][1] == 'i')
+    else:
+        L, n1, n2, n3, e1, e2 = args
+        L0 = None
+        dup, inline = (parts[2][0] == 'd'), (parts[2][1] == 'i')
+    incl = [p for p in (_names('a', n1), _names('a' if dup else 'b', n2), _names('c', n3)) if p]
+    excl = [p for p in (_names('x', e1), _names('y', e2)) if p]
+    pulled = [0]
+    handed = []
+    real = bracex.iexpand
+
+    def counting(p, keep_escapes=False, limit=1000):
+        handed.append(limit)
+        for item in real(p, keep_escapes=keep_escapes, limit=limit):
+            pulled[0] += 1
+            yield item
+    bracex.iexpand = counting
+    try:
+        def call(lim):
+            flags = F.BRACE | (F.NEGATE if inline else 0)
+            pats = incl + (['!' + e for e in excl] if inline else [])
+            ex = None if inline else (excl or None)
+            if entry == 'translate':
+                return F.translate(pats, flags=flags, limit=lim, exclude=ex)
+            if entry == 'glob':
+                return G.glob(pats, flags=G.BRACE | (G.NEGATE if inline else 0), limit=lim, exclude=ex, root_dir='/nonexistent-wcverif')
+            return F.compile(pats, flags=flags, limit=lim, exclude=ex)
+        if L0 is not None:
+            try:
+                call(L0)
+            except _wcparse.PatternLimitException:
+                pass
+            pulled[0] = 0
+            handed.clear()
+        try:
+            call(L)
+            raised = False
+        except _wcparse.PatternLimitException:
+            raised = True
+    finally:
+        bracex.iexpand = real
+    total = n1 + n2 + n3 + e1 + e2
+    uniq = (max(n1, n2) + n3 + e1 + e2) if dup else total
+    if L > 0:
+        if uniq > L and not raised:
+            return False
+        if total <= L and raised:
+            return False
+        if pulled[0] > L + 6:
+            return False
+        if any(h < 1 or h > L for h in handed):
+            return False
+    elif raised or any(h != 0 for h in handed):
+        return False
+    return True
+
+
+def limit_law_harness(call):
+    from props.c11 import eval_call
+    return eval_call(call)[2]
